@@ -1,6 +1,7 @@
 (* C07 — all query front ends, cursors and groupby agree with find_jobs.
    Statements only; proofs in SV.C07Proofs. *)
-From SV Require Import Base Json PyVal Query Canon Front C07Proofs C07Order CorrC06 CorrC07.
+From SV Require Import Base Json PyVal Query Canon Front C07Proofs C07Order C07OrderGen CorrC06 CorrC07.
+From Coq Require Import Sorted.
 From Coq Require Import Permutation.
 
 (* nested mapping vs dotted key; with b = "$op" also operator-as-nested-mapping vs key suffix *)
@@ -78,18 +79,41 @@ Theorem C07_groupby_label_is_members_value : forall ls g i,
 Proof. exact groupby_label_is_members_value. Qed.
 Print Assumptions C07_groupby_label_is_members_value.
 
-(* groupby: for mutually orderable scalar labels (numbers, or strings) the groups' labels are strictly
+(* groupby: for mutually orderable labels -- numbers, booleans, strings, and (nested) lists of them: the
+   tuple labels of a multi-key groupby and list-valued keys included -- the groups' labels are strictly
    increasing under Python's order, hence any two groups have different (Python ==) labels: together
-   with the two theorems above the groups partition the selected jobs by value. *)
-Theorem C07_groupby_labels_distinct_partial : forall ls g h pre mid post,
-  (forall y, In y ls -> scalar (fst y) = true) -> orderable (map fst ls) ->
+   with the two theorems above the groups partition the selected jobs by value.  (Labels that are None or
+   mappings are not orderable: sorted() raises TypeError, which the model reproduces.) *)
+Theorem C07_groupby_labels_increasing : forall ls,
+  (forall y, In y ls -> ordv (fst y) = true) -> orderable (map fst ls) ->
+  StronglySorted grp_lt (group_adjacent (sort_labeled ls) None).
+Proof. exact groupby_labels_increasing_g. Qed.
+Print Assumptions C07_groupby_labels_increasing.
+
+Theorem C07_groupby_labels_distinct : forall ls g h pre mid post,
+  (forall y, In y ls -> ordv (fst y) = true) -> orderable (map fst ls) ->
   group_adjacent (sort_labeled ls) None = pre ++ g :: mid ++ h :: post ->
   py_eq (fst g) (fst h) = false.
-Proof. exact groupby_labels_distinct. Qed.
-Print Assumptions C07_groupby_labels_distinct_partial.
+Proof. exact groupby_labels_distinct_g. Qed.
+Print Assumptions C07_groupby_labels_distinct.
 
-(* _partial: labels that are lists (tuple keys) are not covered by the proof (lexicographic order);
-   the correspondence oracle checks label distinctness on every observed grouping. *)
+(* Python's order on such labels: == is order-equality, and <= is transitive with its strict part *)
+Theorem C07_label_order_eq : forall a, ordv a = true -> forall b, ordv b = true ->
+  (py_order a b = Some Eq <-> py_eq a b = true).
+Proof. exact ord_eq_iff. Qed.
+Print Assumptions C07_label_order_eq.
+
+Theorem C07_label_order_trans : forall a b c, ordv a = true -> ordv b = true -> ordv c = true ->
+  le_lab a b -> le_lab b c -> (exists k, py_order a c = Some k) ->
+  le_lab a c /\ (py_order a c = Some Eq -> py_order a b = Some Eq /\ py_order b c = Some Eq).
+Proof. exact ord_le_trans. Qed.
+Print Assumptions C07_label_order_trans.
+
+Example C07_example_tuple_labels :
+  ordv (JArr [JInt 1; JStr [97%N]]) = true /\ ordv (JArr [JArr [JInt 1; JFloat (3%Z, (-1)%Z)]; JBool true]) = true /\
+  py_order (JArr [JInt 1; JStr [97%N]]) (JArr [JFloat (1%Z, 0%Z); JStr [98%N]]) = Some Lt /\
+  py_order (JArr [JInt 1; JStr [97%N]]) (JArr [JInt 2; JInt 5]) = Some Lt.
+Proof. exact ordv_examples. Qed.
 
 Example C07_example_tokens :
   parse_filter_arg (fun _ => None) (fun _ => None) [[97%N]; [52%N; 50%N]] = Ok (Some (JObj [([97%N], JInt 42)])).
